@@ -333,6 +333,23 @@ TRUSTED_BASE = [
     "Validated against CPython on every run (Run/SrcEvalLint.lean vs the real analyze_policy / analyze_policyset on the algorithm-dependent issues); "
     "`_resource_covers` (existing pytolean) and `_first_applicable_unreachable` (`set(e)` = the list of its members, `issubset`) are translated and "
     "proved equal to the model helpers (Run/C17_lint_helpers_translated.lean); the helper model Lint.actions (`_actions`) is tied only by that differential run",
+    "for the STATIC LOCK PROGRAMS of the hot reloader (C14; harness/pytolean_locks.py, plugin extractors/src_translation_locks.py, "
+    "lean/Rbacx/Model/PyLockProg.lean, obligation Run/C14_locks_static.lean): the reading is syntactic and trusted — WHICH calls are operations is "
+    "decided by the text of the callee: `with self._lock` / self._lock.acquire() / .release() = acquire / release (the kind RLock / Lock from the one "
+    "assignment in __init__), <x>.join(…) = wait for the polling thread and <x>.start() = its spawn (every threading.Thread of the class has "
+    "target=self._run_loop, checked), <x>.submit(f) / <x>.result() = spawn of / wait for the helper thread running the local def f, "
+    "self.source.<anything>(…) = an external call of unbounded duration, self._stop_event.wait() without a timeout likewise (with a timeout: bounded, no "
+    "operation); self.<method>(…) and property reads are inlined (acyclic call graph, checked); asyncio.run(E) / maybe_await(E) / await E run E to "
+    "completion on the calling thread; NO operation and bounded duration: builtins, time, random, logger / logging, inspect, json, "
+    "asyncio.get_running_loop, the constructors of Thread / RLock / Lock / Event / ThreadPoolExecutor, is_alive / is_set / set / clear, and "
+    "self.guard.set_policy (called UNDER the lock by design: that it neither blocks on another thread nor re-enters the reloader is assumed); `with "
+    "ThreadPoolExecutor(…) as ex` is transparent (its shutdown waits for the helper that fut.result() already waited for); control flow is "
+    "over-approximated — tests are not interpreted (both branches, any number of iterations), a statement containing a call may raise after its "
+    "operations, an except clause may or may not match — so infeasible paths are included (never excluded); acquire()/release() themselves do not "
+    "raise; anything else is `.unsupported` (no path, never safe). One helper thread per calling context and ONE run of each thread's program are the "
+    "model's (Model/Locks.lean): a polling loop that submits a helper on every iteration is represented by one helper run. SpawnSafe (a join / result "
+    "is for a thread that was spawned or is running) is a hypothesis of reloader_deadlock_free, not derived (data-dependent in stop()). Tied to CPython "
+    "on every run by traced_paths_are_static_paths: the dynamically traced programs are paths of the static ones",
 ]
 
 
